@@ -243,7 +243,8 @@ def discharge(ob, timeout_ms=10000, want_model=True):
                 or (al and ("clock" in n or "aligned" in n)) or any(x in n for x in (ob.meta.get("slice_hints") or ())):
             sliced.append(h)
     t = timeout_ms
-    ladder = [("full", ob.hyps, min(3000, t), 0), ("quantifier-free-hyps", qf, min(6000, t), 0), ("sliced", sliced, min(6000, t), 0),
+    ladder = [("full", ob.hyps, min(3000, t), 0), ("quantifier-free-hyps", qf, min(6000, t), 0),
+              ("sliced", sliced, min(6000, t) if not ob.meta.get("slice_hints") else max(20000, t), 0),
               ("full-long", ob.hyps, 4 * t, 0)]
     if t > 10000:
         ladder.append(("seed7", ob.hyps, 2 * t, 7))
